@@ -143,3 +143,34 @@ def programs(tier):
                                   println(Call("gshow_m", va[0], targs=[ta])), println(Call("twice", vb[0], targs=[tb])), println(Call("twice", va[0], targs=[ta])),
                                   println(Call("pair_show", va[0], vb[0], targs=[ta, tb])), println(Call("pair_show", vb[0], va[0], targs=[tb, ta]))])
     return out
+
+
+# ---------------------------------------------------------------- polymorphic recursion (Mono.tla: Diverged / Refuse)
+# (name, source, infinite): the instance closure of the program is infinite (every instance asks for a larger one) or finite.
+# An infinite closure cannot be compiled: the compiler has to say so in bounded time; a finite one must be accepted.
+def polyrec_programs():
+    main = "fn main() -> unit {{\n    let _ = string_println(int32_to_string({call}));\n    ()\n}}\n"
+    P = []
+    P.append(("grow-by-tuple", "fn f[T](x: T, n: int32) -> int32 {\n    if n == 0 { 0 } else { f((x, x), n - 1) }\n}\n" + main.format(call="f(1, 3)"), True))
+    P.append(("grow-by-ref", "fn f[T](x: T, n: int32) -> int32 {\n    if n == 0 { 0 } else { f(ref(x), n - 1) }\n}\n" + main.format(call="f(true, 2)"), True))
+    P.append(("grow-by-vec", "fn f[T](x: T, n: int32) -> int32 {\n    if n == 0 { 0 } else { let v: Vec[T] = vec_new(); f(vec_push(v, x), n - 1) }\n}\n" + main.format(call='f("s", 2)'), True))
+    P.append(("grow-by-array", "fn f[T](x: T, n: int32) -> int32 {\n    if n == 0 { 0 } else { f([x, x], n - 1) }\n}\n" + main.format(call="f(1, 2)"), True))
+    P.append(("grow-by-closure", "fn f[T](x: T, n: int32) -> int32 {\n    if n == 0 { 0 } else { f(|u: int32| x, n - 1) }\n}\n" + main.format(call="f(1, 2)"), True))
+    P.append(("mutual", "fn a[T](x: T, n: int32) -> int32 {\n    if n == 0 { 0 } else { b((x, 1), n - 1) }\n}\nfn b[U](u: U, n: int32) -> int32 {\n    a(u, n)\n}\n"
+              + main.format(call="a(1, 3)"), True))
+    P.append(("grow-in-second-parameter", "fn f[A, B](x: A, y: B, n: int32) -> int32 {\n    if n == 0 { 0 } else { f(x, (y, x), n - 1) }\n}\n" + main.format(call="f(1, true, 2)"), True))
+    P.append(("enum-nests-itself", "enum Nested[T] { Leaf(T), Node(Nested[(T, T)]) }\nfn main() -> unit {\n    let x: Nested[int32] = Nested::Leaf(1);\n"
+              "    let _ = match x { Nested::Leaf(k) => string_println(int32_to_string(k)), Nested::Node(_) => string_println(\"node\") };\n    ()\n}\n", True))
+    P.append(("enum-chain-of-vecs", "enum Chain[T] { End, Link(T, Chain[Vec[T]]) }\nfn main() -> unit {\n    let c: Chain[int32] = Chain::End;\n"
+              "    let _ = match c { Chain::End => string_println(\"end\"), Chain::Link(_, _) => string_println(\"link\") };\n    ()\n}\n", True))
+    P.append(("struct-nests-itself", "enum Opt[T] { Non, Som(T) }\nstruct Deep[T] { v: T, next: Opt[Deep[Ref[T]]] }\nfn main() -> unit {\n    let d: Deep[int32] = Deep { v: 1, next: Opt::Non };\n"
+              "    let _ = string_println(int32_to_string(d.v));\n    ()\n}\n", True))
+    # finite closures
+    P.append(("same-type-recursion", "fn f[T](x: T, n: int32) -> int32 {\n    if n == 0 { 0 } else { 1 + f(x, n - 1) }\n}\n" + main.format(call="f((1, true), 3)"), False))
+    P.append(("one-step-growth", "fn p[T](x: T) -> int32 {\n    q(ref(x))\n}\nfn q[U](u: U) -> int32 {\n    7\n}\n" + main.format(call="p(1) + p(true)"), False))
+    P.append(("resets-to-a-constant-type", "fn r[T](x: T, n: int32) -> int32 {\n    if n == 0 { 0 } else { 1 + r(1, n - 1) }\n}\n" + main.format(call='r("s", 3)'), False))
+    P.append(("three-explicit-levels", "fn s3[T](x: T) -> int32 {\n    s2((x, x))\n}\nfn s2[T](x: T) -> int32 {\n    s1((x, x))\n}\nfn s1[T](x: T) -> int32 {\n    5\n}\n" + main.format(call="s3(1)"), False))
+    P.append(("regular-recursive-type", "enum List[T] { Nil, Cons(T, List[T]) }\nfn len[T](l: List[T]) -> int32 {\n    match l { List::Nil => 0, List::Cons(_, t) => 1 + len(t) }\n}\n"
+              "fn main() -> unit {\n    let l: List[(int32, bool)] = List::Cons((1, true), List::Nil);\n    let _ = string_println(int32_to_string(len(l)));\n    ()\n}\n", False))
+    P.append(("swaps-parameters", "fn w[A, B](x: A, y: B, n: int32) -> int32 {\n    if n == 0 { 0 } else { 1 + w(y, x, n - 1) }\n}\n" + main.format(call="w(1, true, 4)"), False))
+    return P
